@@ -323,6 +323,9 @@ const pairShards = 32
 
 func shards(tier string) []string {
 	out := []string{"unary", "literals", "fromint"}
+	for k := 20; k <= 63; k += 4 {
+		out = append(out, fmt.Sprintf("bands/%d", k))
+	}
 	for i := 0; i < pairShards; i++ {
 		out = append(out, fmt.Sprintf("pairs/%d", i))
 	}
@@ -337,12 +340,51 @@ func short(s string) string {
 }
 
 func run(c *core.Ctx) {
-	c.Res.Bound = fmt.Sprintf("%d magnitudes x sign x fraction-digits 0..18 (decimals within a signed 64-bit mantissa); all ordered pairs; literal grid", len(mags(c.Tier)))
+	c.Res.Bound = fmt.Sprintf("%d magnitudes x sign x fraction-digits 0..18 (decimals within a signed 64-bit mantissa); all ordered pairs; literal grid; 512 (4096) magnitudes spread over every binary band 2^20..2^63 x sign x fraction-digits, printed, re-read and converted", len(mags(c.Tier)))
 	report := func(caseNo int64, in Input, f *fail) {
 		c.Outcome("FAIL:" + f.fp)
 		c.Fail(caseNo, f.classes, f.fp, in, f.exp, f.obs)
 	}
 	switch {
+	case strings.HasPrefix(c.Shard, "bands/"):
+		// magnitudes spread evenly (with an odd stride) over every binary band [2^k, 2^(k+1)): values
+		// that are near no decimal or binary boundary but may sit beyond an internal precision limit
+		var k0 int
+		fmt.Sscanf(c.Shard, "bands/%d", &k0)
+		per := uint64(512)
+		if c.Tier == "thorough" {
+			per = 4096
+		}
+		for k := k0; k < k0+4 && k <= 63; k++ {
+			lo := uint64(1) << uint(k)
+			stride := lo/per | 1
+			for i := uint64(0); i < per; i++ {
+				m := lo + i*stride + (i*i)%7
+				for _, neg := range []bool{false, true} {
+					for fd := 0; fd <= 18; fd++ {
+						if fd > 0 && ((!neg && m > 1<<63-1) || (neg && m > 1<<63)) {
+							continue
+						}
+						a := N{neg, m, uint8(fd)}
+						caseNo, run := c.Begin()
+						in := Input{Op: "unary", A: a}
+						if c.Skip(caseNo, run, in) {
+							continue
+						}
+						c.Exec()
+						c.Validate()
+						c.Edge(4)
+						c.StateN(1)
+						c.NontrivialN(1)
+						if f := checkUnary(a); f != nil {
+							report(caseNo, in, f)
+						} else {
+							c.Outcome("unary-ok")
+						}
+					}
+				}
+			}
+		}
 	case c.Shard == "unary":
 		for _, a := range numbers(c.Tier) {
 			caseNo, run := c.Begin()
